@@ -3,6 +3,7 @@
 # that every recorded check reports a violation with the recorded rule.
 ROOT=${MZSA_ROOT:-/verif}
 n=$1; d=/verif/seeded/$n
+if python3 -c "import json,sys;sys.exit(0 if json.load(open('$d/meta.json')).get('verif',{}).get('missed') else 1)"; then echo "$n KNOWN-MISS (recorded in meta.json: no check reports it)"; exit 0; fi
 checks=$(python3 -c "import json;print(' '.join(sorted({c.split(':')[0] for c in json.load(open('$d/meta.json'))['verif']['caught_by']})))")
 [ -n "$checks" ] || { echo "$n: meta.json has no verif.caught_by"; exit 1; }
 out=$(MZSA_ROOT=$ROOT /verif/selftest/seed_par.sh $n $checks)
